@@ -81,8 +81,10 @@ impl PartialOrd for ValueKey {
             (Null, Null) => Some(Ordering::Equal),
             (Null, _) => Some(Ordering::Less),
             (_, Null) => Some(Ordering::Greater),
+            (Bool(a), Bool(b)) => a.partial_cmp(b),
             (Number(a), Number(b)) => a.partial_cmp(b),
             (Str(a), Str(b)) => a.partial_cmp(b),
+            (Range(a), Range(b)) => (a.start(), a.end()).partial_cmp(&(b.start(), b.end())),
             (Tuple(a), Tuple(b)) => match a.len().cmp(&b.len()) {
                 Ordering::Equal => {
                     for (value_a, value_b) in a.iter().zip(b.iter()) {
@@ -97,7 +99,20 @@ impl PartialOrd for ValueKey {
                 }
                 other => Some(other),
             },
-            _ => Some(Ordering::Equal),
+            // Keys of different types are ordered by type, so that the ordering is total
+            // and only keys that are equal compare as equal
+            (a, b) => {
+                let type_rank = |value: &KValue| match value {
+                    Null => 0,
+                    Bool(_) => 1,
+                    Number(_) => 2,
+                    Str(_) => 3,
+                    Range(_) => 4,
+                    Tuple(_) => 5,
+                    _ => 6,
+                };
+                type_rank(a).partial_cmp(&type_rank(b))
+            }
         }
     }
 }
